@@ -47,7 +47,7 @@ func (c *Collection) GetXattrs(
 // SetWithMeta updates a document fully with xattrs and body and allows specification of a specific CAS (newCas). This update will always happen as long as oldCas matches the value of existing document. This simulates the kv op setWithMeta.
 func (c *Collection) SetWithMeta(_ context.Context, key string, oldCas CAS, newCas CAS, exp uint32, xattrs []byte, body []byte, datatype sgbucket.FeedDataType) error {
 	isJSON := datatype&sgbucket.FeedDataTypeJSON != 0
-	isDeletion := false
+	isDeletion := (body == nil) // a row without a body is a tombstone
 	return c.writeWithMeta(key, body, xattrs, oldCas, newCas, exp, isJSON, isDeletion)
 }
 
